@@ -283,7 +283,8 @@ StopStep(am) ==
                 ELSE Log([a |-> "Arrive", am |-> am, who |-> "stop", ids |-> Take(q[am], MaxBatch)])
   \/ StopFin(am)
 
-Internal == \E am \in AMs : LoopStep(am) \/ StopStep(am)
+\* (the end of the owner's critical section needs no cooperation either: sync / Run return)
+Internal == (\E am \in AMs : LoopStep(am) \/ StopStep(am)) \/ OwnerEnd
 
 \* an HTTP exchange completes (the harness opens the gate)
 LoopExchangeOK(am) ==
@@ -304,7 +305,6 @@ External ==
   \/ \E n \in SendSizes : Send(n) /\ UNCHANGED fails
   \/ \E S \in SUBSET AMs : SyncBegin(S)
   \/ StopAllBegin
-  \/ OwnerEnd
   \/ Exchange
 
 \* Eager: the environment moves only when no goroutine can move on its own -- exactly the
@@ -359,6 +359,7 @@ LossCounted == \A am \in AMs : Lost(am) <= cnt[am].dropped
 \* the count is exact, except that a loop that is stopped without draining may still send one batch
 \* of alerts already counted as dropped
 LossExact == \A am \in AMs : Lost(am) = cnt[am].dropped \/ (Abandoned(am) /\ racy[am])
+LossExactFix == \A am \in AMs : Lost(am) = cnt[am].dropped
 SentCounted == \A am \in AMs : cnt[am].sent = Len(Flat(recv[am]))
 
 \* with draining, when stop() returns every accepted alert has been attempted or counted
@@ -367,7 +368,8 @@ DrainComplete == Drain => \A am \in AMs : spc[am] \in {"fin", "done"} => Drained
 DrainCompleteKF == Drain => \A am \in AMs : spc[am] \in {"fin", "done"} => (Drained(am) \/ racy[am])   \* KF-C46-1
 
 \* liveness: a drain-on-shutdown stop terminates and leaves nothing queued, provided exchanges complete
-StopTerminates == (mgr = "stopped") ~> (lock = "free")
+StopTerminates == (mgr = "stopped") ~> (lock = "free" /\ loops = {})
+SyncTerminates == (lock = "sync") ~> (lock # "sync")
 
 -----------------------------------------------------------------------------
 \* complete runs only: print the history when the manager has shut down and no exchange is in flight
